@@ -83,7 +83,7 @@ theorem restore_pending_partial (kgc start stop maxCache maxCache' : Nat) (ids i
     let atCkpt := ((Registry.new (Store.new [] kgc start stop maxCache) ids).run before).1
     let specCkpt := ((Spec.new ids).run before).1
     let restored := Registry.new (Store.new atCkpt.store.db kgc start stop maxCache') ids'
-    let specRestored : Spec := ⟨specCkpt.pending, Wm.Ups.init ids', Wm.zeroTime⟩
+    let specRestored : Spec := ⟨specCkpt.pending, Wm.Ups.init ids', Wm.regInit⟩
     Rel restored specRestored ∧
     OutputsAgree (restored.run after).2 (specRestored.run after).2 ∧
     Rel (restored.run after).1 (specRestored.run after).1 := by
@@ -107,7 +107,7 @@ theorem restore_pending_subrange_partial (kgc start stop start' stop' maxCache m
     let restored := Registry.new (Store.new atCkpt.store.db kgc start' stop' maxCache') ids'
     let specRestored : Spec :=
       ⟨specCkpt.pending.filter (fun p => decide (start' ≤ KeySpace.keyGroup kgc p.1) && decide (KeySpace.keyGroup kgc p.1 < stop')),
-       Wm.Ups.init ids', Wm.zeroTime⟩
+       Wm.Ups.init ids', Wm.regInit⟩
     Rel restored specRestored ∧
     OutputsAgree (restored.run after).2 (specRestored.run after).2 ∧
     Rel (restored.run after).1 (specRestored.run after).1 := by
@@ -125,27 +125,29 @@ theorem restore_pending_subrange_partial (kgc start stop start' stop' maxCache m
 `encodeTimerKey` stores `uint64(t.UnixNano())` big-endian and every order in the timer store is the byte order of the
 keys, so a timer with a negative `UnixNano` sorts after all timers from 1970 on. -/
 
-/-- a timer 5 ns before the epoch, one in the year 2100, then the watermark advances to 10 s -/
+/-- the runner's watermark is before 1970 (it processes older data); a timer 5 ns before the epoch and one in the year
+2100 are registered; then the watermark advances to 10 s and beyond 2100 -/
 def preEpochOps : List ROp :=
-  [.set [0x6b] (-5), .set [0x6b] 4102444800000000000, .adv "sr0" 10000000000, .adv "sr0" 4102444800000000001]
+  [.adv "sr0" (-1000000000), .set [0x6b] (-5), .set [0x6b] 4102444800000000000, .adv "sr0" 10000000000,
+   .adv "sr0" 4102444800000000001]
 
 /-- the code (model) fires nothing at 10 s although the timer at −5 ns is due, and when the watermark passes the year
 2100 it fires 2100 first and −5 ns after it; the specification fires −5 ns at 10 s. So `registry_refines_spec` without
-`0 ≤ t` is false: the outputs of the third action differ. -/
+`0 ≤ t` is false: the outputs of the fourth action differ. -/
 theorem preepoch_counterexample :
     ((Registry.new (Store.new [] 1 0 1 1048576) ["sr0"]).run preEpochOps).2 =
-      [[], [], [], [([0x6b], 4102444800000000000), ([0x6b], -5)]] ∧
-    ((Spec.new ["sr0"]).run preEpochOps).2.map (·.map (·.2)) = [[], [], [-5], [4102444800000000000]] ∧
+      [[], [], [], [], [([0x6b], 4102444800000000000), ([0x6b], -5)]] ∧
+    ((Spec.new ["sr0"]).run preEpochOps).2.map (·.map (·.2)) = [[], [], [], [-5], [4102444800000000000]] ∧
     ¬ OutputsAgree ((Registry.new (Store.new [] 1 0 1 1048576) ["sr0"]).run preEpochOps).2
         ((Spec.new ["sr0"]).run preEpochOps).2 := by
   have h1 : ((Registry.new (Store.new [] 1 0 1 1048576) ["sr0"]).run preEpochOps).2 =
-      [[], [], [], [([0x6b], 4102444800000000000), ([0x6b], -5)]] := by decide
+      [[], [], [], [], [([0x6b], 4102444800000000000), ([0x6b], -5)]] := by decide
   have h2 : ((Spec.new ["sr0"]).run preEpochOps).2 =
-      [[], [], [([0x6b], -5)], [([0x6b], 4102444800000000000)]] := by decide
+      [[], [], [], [([0x6b], -5)], [([0x6b], 4102444800000000000)]] := by decide
   refine ⟨h1, by rw [h2]; rfl, ?_⟩
   rw [h1, h2]
   intro h
-  have := h.2.2.1.1.length_eq
+  have := h.2.2.2.1.1.length_eq
   simp at this
 
 /-! non-vacuity and the D11 regression witness (2-entry cache: put 1, 2, 5; fire 1; put 9; the rest must fire as 2, 5, 9) -/
